@@ -244,6 +244,12 @@ U_C12(zz) ==
            {0, 1, 2, 254, 255}, 5, {0, 1}),
      DeclP([C0 |-> Class(DefaultOpts, <<RepUntilF("r", RefF("e", "C1"), Lam(EBin("eq", EAttr(EIdx(EF("r"), EC(-1)), "x"), EC(0))), NoCond, 0)>>),
             C1 |-> Class(DefaultOpts, <<U1("x"), DataF("d", SzField("x"))>>)], {0, 1, 2}, 6, {0}),
+     \* a descriptor whose after-unpack hook verifies the parsed value (top level and nested)
+     DeclP([C0 |-> Class(DefaultOpts, <<WithDesc(U1("n"), [kind |-> "verify", e |-> EUn("len", EF("d"))]), DataF("d", SzMarker(<<0>>, FALSE, TRUE)), U1("z")>>)],
+           {0, 1, 2, 65}, 5, {0, 1}),
+     DeclP([C0 |-> Class(DefaultOpts, <<U1("h"), RefF("s", "C1"), U1("t")>>),
+            C1 |-> Class(DefaultOpts, <<WithDesc(U1("n"), [kind |-> "verify", e |-> EUn("len", EF("d"))]), DataF("d", SzMarker(<<0>>, FALSE, TRUE))>>)],
+           {0, 1, 65}, 5, {0}),
      \* corrupted length fields: a signed length, a length expression that goes negative
      DeclP([C0 |-> Class(DefaultOpts, <<U1("h"), RefF("s", "C1"), U1("t")>>),
             C1 |-> Class(DefaultOpts, <<S1("n"), DataF("d", SzField("n")), U1("z")>>)], {0, 1, 2, 254, 255}, 5, {0, 1}),
